@@ -169,7 +169,10 @@ CellP(e, k, v) == IF HasCellP(e) THEN e.loc.pc[k][v] ELSE e.loc.p[e.t[k][v]]
 MapNum(e, k, a) ==
   LET w == MapWeights(e.kind, e.loc.L, a) IN
   [c \in 1..Dim(e.kind) |-> SumSeq([v \in 1..Len(w) |-> w[v] * CellP(e, k, v)[c]])]
-LocTol == FxTol(40)
+\* absolute tolerance on recorded locations (times the mesh scale <= 64, |x| < 2^10): observed round-off is a few units
+\* in the last place (worst measured 1.2e-15); 2^-30 (9.3e-10) leaves ~8e5 above that and is > 1e5 below
+\* the smallest distance between two distinct reference locations mapped to any universe cell (>= 1/12 * 2^-6 * ...)
+LocTol == FxTol(30)
 LocDen(e) == e.loc.L ^ MapDeg(e.kind)
 LocMatches(e, d, num) ==
   IF e.loc.mode = "exact" THEN e.loc.glob[d + 1] = num
@@ -316,8 +319,15 @@ PeriodicIdentification(e) ==
         (e.t[s1[1]][s1[2]] = e.t[s2[1]][s2[2]])
           <=> Congruent(e.per.pc[s1[1]][s1[2]], e.per.pc[s2[1]][s2[2]], e.per.period)
 
-\* the basis logged "Unable to calculate global DOF locations" although the element has reference locations
-DofLocsBuilt(e) == e.warn = 0
+\* while the basis was built a logger of the library reported at WARNING level or above (whatever the wording) AND the
+\* location table it left behind is identically zero although the element has reference locations: the table was not
+\* built.  (A warning alone, or a table that is correct in spite of a warning, is no violation.)
+ZeroLoc(e, x) == x # <<>> /\ \A c \in DOMAIN x : IF e.loc.mode = "exact" THEN x[c] = 0 ELSE x[c] = <<0, 0, 0, 0, 0>>
+DofLocsBuilt(e) ==
+  ~(/\ e.warn = 1
+    /\ e.loc.mode \in {"exact", "fx"}
+    /\ \A d \in DOMAIN e.loc.glob : ZeroLoc(e, e.loc.glob[d])
+    /\ \E r \in 1..NBfun(e.kind, e.sig) : r \in DOMAIN e.loc.ref /\ e.loc.ref[r] # <<>>)
 NumberClauses(e) ==
   LET base0 == NumberClausesBase(e)
       base == IF base0.WellFormed /\ "warn" \in DOMAIN e /\ e.hasref = 1
@@ -510,8 +520,8 @@ QueryClauses(b, q) ==
 \* complement query: args = the index arrays handed over
 ComplementClauses(b, q) ==
   [ ComplementIsComplement |-> /\ q.err = ""
-                               /\ VSet(q.out) = (0..(b.N - 1)) \ UNION {VSet(q.args[i]) : i \in DOMAIN q.args}
-                               /\ IsInjectiveSeq(q.out) ]
+                               /\ VSet(q.out) = (0..(b.N - 1)) \ UNION {VSet(q.args[i]) : i \in DOMAIN q.args} ]
+\* (set semantics only: order and multiplicity of the returned index array are not part of the statement)
 
 \* ---- law (mode L): the trace on the selected facets depends on no DOF outside the returned set.
 \* Support event: sel (facets), comp in {"value", "normal", "tangential"}, got = the returned DOFs, entries = one
@@ -520,7 +530,10 @@ ComplementClauses(b, q) ==
 \* harness records normal / tangential components only on axis-parallel facets).  Asserted only for the families
 \* whose functions attached to an entity outside the closure of a facet vanish on it in the relevant component
 \* (Lagrange-type H1: value; Raviart-Thomas / BDM: normal component; Nedelec: tangential component).
-TraceTol == FxTol(40)
+\* absolute tolerance on "vanishing" trace values (basis values are O(1); Piola-mapped ones on integer cells pick up
+\* round-off ~1e-15 * cond): 2^-30 (9.3e-10) is 2e5 above the worst measured (4.5e-15) and 8 orders below the trace of a
+\* function that really lives on the facet
+TraceTol == FxTol(30)
 FxDot(v, n) == FxSumSeq([c \in DOMAIN v |-> FxMulSmall(v[c], n[c])])
 TraceComponent(en, comp) ==
   CASE comp = "value"  -> en.v
